@@ -140,7 +140,12 @@ def generate(tier):
                         c = build(sh, list(ft), ts, [m0, m1], salt)
                         if c:
                             cases.append(c)
-    return cases
+    seen, out = set(), []
+    for c in cases:
+        if c.key not in seen:
+            seen.add(c.key)
+            out.append(c)
+    return out
 
 
 RULE = ('structs and enum variants with 1..3 fields over field types {u8, u16, W (user type)} (thorough: + u32, &\'static str) '
